@@ -56,7 +56,9 @@ def obligations(tier):
         ms, als = (sorted(set(tm)), list(ta)) if tier == "thorough" else (list(qm), list(qa))
         for ml in ms:
             for al in als:
-                q = ml in qm and al in qa
+                q = ml in qm and al in qa and ag == 256   # AEGIS-128L instances take > 10 min: thorough only
+                if tier != "thorough" and not q:
+                    continue
                 obs.append(Ob("aegis%s-reject-m%d-a%d" % (an, ml, al), "C01/aegis.c",
                               units=AEGIS_UNITS[ag] + GLUE_UNITS, stubs=AEGIS_STUBS, instrument=AEGIS_CUTS[ag], object_bits=12, defs={"AEGIS": ag, "MLEN": ml, "ADLEN": al, "PART": 1},
                               unwind=110, timeout=2400, mem=8, tier="quick" if q else "thorough", family="aegis%s-soft" % an,
